@@ -413,10 +413,10 @@ Section Fns.
         end
     end.
 
-  (* re.sub(r"[\s\-'.*]+", '', s.upper()) *)
-  Definition norm_drop (c : ascii) : bool :=
-    is_space c || Ascii.eqb c "-" || Ascii.eqb c "'" || Ascii.eqb c "." || Ascii.eqb c "*".
-  Definition normalize (s : string) : string := sfilter (fun c => negb (norm_drop c)) (upper s).
+  (* re.sub(r"[\s\-'.*]+", '', s.upper()): drop every blank code point, hyphen, apostrophe, period, asterisk *)
+  Definition norm_drop (c : string) : bool :=
+    is_space_cp c || String.eqb c "-" || String.eqb c "'" || String.eqb c "." || String.eqb c "*".
+  Definition normalize (s : string) : string := sconcat (filter (fun c => negb (norm_drop c)) (cps (upper s))).
   Definition fn_normalized (args : list value) : outcome :=
     match text_pattern args with
     | None => ExprErr
